@@ -416,3 +416,9 @@ PROPS['C02']['note'] = ('Under contract: every encoder primitive except process_
                         'length back-patch: see C04). Assumed: the interface contracts of the abstract primitives inside Coder and the summary of process_members.')
 PROPS['C10']['claim'] += (' Re-compression of the reduced columns: the compressed numeric / code-flag / new-reference-value writers are under contract (C02, C05); a '
                           'negative 203YYY reference value is written sign-magnitude in compressed data as well.')
+
+
+PROPS['C14']['claim'] += (' Discharged deductively: TableB.lookup / TableD.lookup return the table\'s own descriptor for a defined id and a fresh placeholder '
+                          'of class UndefinedElementDescriptor / UndefinedSequenceDescriptor carrying the id otherwise (never None, never another entry); the '
+                          'composite descriptors of the walker (an undefined replication factor raises UnknownDescriptor); frame obligations on the table lookups.')
+PROPS['C01']['claim'] += (' Labels: Descriptor.__str__ is the id as six digits, AssociatedDescriptor / SkippedLocalDescriptor print A / S + five digits.')
